@@ -52,3 +52,21 @@ package csv
 //@   nopanic
 //@   ensures[C09] !iseol(sc(scanner).content[old(cur(scanner))]) ==> result.typ == tokenizers.Symbol && cur(scanner) == old(cur(scanner)) + 1
 
+// "everything is a word character except CR, LF, separators and quotes" (up to U+FFFE): the word table the tokenizer is configured with
+//@ rec inRunes(s seq[rune], n int, ch rune) bool decreases n = n <= 0 ? false : (s[n-1] == ch || inRunes(s, n - 1, ch))
+//@ func NewCsvWordState
+//@   requires forall i int :: 0 <= i && i < len(fieldSeparators) ==> 0 <= fieldSeparators[i] && fieldSeparators[i] <= 0xfffe
+//@   requires forall i int :: 0 <= i && i < len(quoteSymbols) ==> 0 <= quoteSymbols[i] && quoteSymbols[i] <= 0xfffe
+//@   ensures[C09] fresh(result) && result.GenericWordState != nil && result.GenericWordState.mp != nil && mapInv(result.GenericWordState.mp)
+//@   ensures[C09] forall ch rune :: (view(result.GenericWordState.mp, ch) != nil) ==
+//@       (0 <= ch && ch <= 0xfffe && ch != 13 && ch != 10 && !inRunes(seq(fieldSeparators), len(fieldSeparators), ch) && !inRunes(seq(quoteSymbols), len(quoteSymbols), ch))
+//@   nopanic
+//@   loop 0
+//@     invariant -1 <= rangeindex && rangeindex < len(fieldSeparators) && c.GenericWordState != nil && c.GenericWordState.mp != nil && mapInv(c.GenericWordState.mp)
+//@     invariant forall ch rune :: (view(c.GenericWordState.mp, ch) != nil) == (0 <= ch && ch <= 0xfffe && ch != 13 && ch != 10 && !inRunes(seq(fieldSeparators), rangeindex + 1, ch))
+//@     decreases len(fieldSeparators) - rangeindex
+//@   loop 1
+//@     invariant -1 <= rangeindex && rangeindex < len(quoteSymbols) && c.GenericWordState != nil && c.GenericWordState.mp != nil && mapInv(c.GenericWordState.mp)
+//@     invariant forall ch rune :: (view(c.GenericWordState.mp, ch) != nil) ==
+//@         (0 <= ch && ch <= 0xfffe && ch != 13 && ch != 10 && !inRunes(seq(fieldSeparators), len(fieldSeparators), ch) && !inRunes(seq(quoteSymbols), rangeindex + 1, ch))
+//@     decreases len(quoteSymbols) - rangeindex
